@@ -783,7 +783,10 @@ def cxx_denotes(text, ch):
         return simple[text] == ch
     mm = re.match(r'^\\([0-7]{3})$', text)
     if mm:
-        return int(mm.group(1), 8) == ord(ch)      # exactly three octal digits never absorb what follows
+        # exactly three octal digits never absorb what follows. The same spelling goes into u"" literals (QStringLiteral: a code unit) and
+        # into narrow UTF-8 literals (the source text handed to translate(): a BYTE), so it denotes the character in both only below 0x80:
+        # `\205` for U+0085 is a lone continuation byte in the narrow literal, which Qt decodes to U+FFFD
+        return int(mm.group(1), 8) == ord(ch) and ord(ch) < 0x80
     # universal character names: exactly 4 (\u) or 8 (\U) hex digits; inside a string literal C++11..17 [lex.charset]/2 excludes
     # only surrogates; a fifth digit after \uXXXX is the next character of the string
     mm = re.match(r'^\\u([0-9a-fA-F]{4})$', text) or re.match(r'^\\U([0-9a-fA-F]{8})$', text)
